@@ -8,7 +8,7 @@ from __future__ import annotations
 import ast
 import z3
 
-from .core import (BOOL, INT, STR, ClassInfo, ConcreteSeq, Infeasible, LiveView, Path, PathEnd,
+from .core import (card_fn, BOOL, INT, STR, ClassInfo, ConcreteSeq, Infeasible, LazyContainer, LiveView, Path, PathEnd,
                    PyExc, Snapshot, SV, SymIter, TDict, TList, TObj, TOpt, TRefBase, TSet, TTuple,
                    TUn, Ty, Unsupported, _TBool, _TInt, _TStr, class_mro, exc_isinstance,
                    field_type, option_sort, CLASSES)
@@ -130,6 +130,8 @@ class Interp:
         self.cls_stack = [cls]
         self.fsrc = fsrc
         self.loop_events = []
+        self.interference = None
+        self.callctx = None
 
     # ------------------------------------------------------------------ utils
     @property
@@ -143,10 +145,20 @@ class Interp:
     def raise_(self, etype, *args, node=None):
         raise PyExc(etype, args, self.where(node) if node is not None else None)
 
+    def deref(self, v):
+        if isinstance(v, LazyContainer):
+            if v.resolved is None:
+                raise Unsupported(f"{v.kind} literal used before its type is known")
+            return v.resolved
+        return v
+
     # ------------------------------------------------------------------ truthiness
     def truthy(self, v):
         """-> python bool or z3 Bool."""
         p = self.path
+        if isinstance(v, LazyContainer) and v.resolved is None:
+            return len(v.items) > 0
+        v = self.deref(v)
         if v is None:
             return False
         if isinstance(v, bool):
@@ -219,7 +231,7 @@ class Interp:
             n = s.count if s.count is not None else z3.Int(p.fresh_name("len"))
             p.assume(n >= 0)
             p.assume((n == 0) == z3.Not(ne))
-            if s.distinct:
+            if s.distinct is True:
                 two = z3.And(s.member(w1), s.member(w2), w1 != w2)
                 p.assume((n >= 2) == two)
                 p.assume(z3.Implies(n < 2, z3.ForAll([e, e2], z3.Implies(
@@ -240,6 +252,7 @@ class Interp:
     def eq(self, a, b):
         """Python == on runtime values -> bool or z3 Bool."""
         p = self.path
+        a, b = self.deref(a), self.deref(b)
         if a is None or b is None:
             if a is None and b is None:
                 return True
@@ -322,6 +335,9 @@ class Interp:
         return False
 
     def identical(self, a, b):
+        if isinstance(a, LazyContainer) and isinstance(b, LazyContainer) and (a.resolved is None or b.resolved is None):
+            return a is b
+        a, b = self.deref(a), self.deref(b)
         if a is None or b is None:
             return _zand([self.is_none(a), self.is_none(b)])
         if isinstance(a, bool) and isinstance(b, bool):
@@ -748,7 +764,7 @@ class Interp:
             more = p.choose(z3.Bool(p.fresh_name("more")))
             if more:
                 p.assume(it.member(x))
-                if it.distinct:
+                if it.distinct is True:
                     p.assume(z3.Not(done[x]))
                 self.assign(s.target, it.elem(self, x), env)
             else:
@@ -815,6 +831,11 @@ class Interp:
             if it.live is not None:
                 live_guard = (it.live, p.content(it.live))
             self.assign(s.target, it.elem(self, x), env)
+            if self.interference is not None and any(isinstance(n, (ast.Yield, ast.YieldFrom))
+                                                     for b in s.body for n in ast.walk(b)):
+                # earlier iterations may have yielded: the heap at the start of an arbitrary iteration is
+                # any state reachable by interfering operations
+                self.interference.after_yield(self, self.callctx, s)
             hw = self.heap_writes
             p.ghost.setdefault("__loopvars__", [])
             p.ghost["__loopvars__"] = p.ghost["__loopvars__"] + [(x, it)]
@@ -840,9 +861,14 @@ class Interp:
             # variables assigned in the body are unknown after the loop unless they existed before
             for n in body_names:
                 env[n] = Poison(n, "assigned in a loop body without invariant")
+            if self.interference is not None and any(isinstance(n, (ast.Yield, ast.YieldFrom))
+                                                     for b in s.body for n in ast.walk(b)):
+                self.interference.after_yield(self, self.callctx, s)
             self.exec_block(s.orelse, env)
 
     def concrete_items(self, v):
+        if isinstance(v, LazyContainer) and v.resolved is None and v.kind == "set":
+            return list(v.items)
         if isinstance(v, tuple):
             return list(v)
         if isinstance(v, ConcreteSeq):
@@ -865,6 +891,7 @@ class Interp:
 
     def iter_descr(self, v, node=None):
         p = self.path
+        v = self.deref(v)
         if isinstance(v, Snapshot):
             return Interp.IterDescr(v.elem_ty, v.member, v.distinct, wrap=getattr(v, "wrap", None))
         if isinstance(v, SymIter):
@@ -889,12 +916,13 @@ class Interp:
         ref = lv.ref
         c = p.content(ref)
         if isinstance(ref.ty, TSet):
-            return Snapshot(ref.ty.k, lambda e, c=c: z3.Select(c, e), True, origin=("set", ref, c))
+            return Snapshot(ref.ty.k, lambda e, c=c: z3.Select(c, e), True, count=card_fn(c.sort())(c),
+                            origin=("set", ref, c))
         if isinstance(ref.ty, TDict):
             os_ = option_sort(ref.ty.v.sort())
             if lv.what == "keys":
                 return Snapshot(ref.ty.k, lambda e, c=c: z3.Not(os_.is_none(z3.Select(c, e))), True,
-                                origin=("keys", ref, c))
+                                count=card_fn(c.sort())(c), origin=("keys", ref, c))
             if lv.what == "items":
                 tt = TTuple(ref.ty.k, ref.ty.v)
 
@@ -1104,6 +1132,7 @@ class Interp:
 
     def contains(self, coll, x, node=None):
         p = self.path
+        coll = self.deref(coll)
         if isinstance(coll, (tuple, ConcreteSeq)):
             items = coll if isinstance(coll, tuple) else coll.items
             return _zor([self.eq_or_same(x, y) for y in items])
@@ -1163,6 +1192,7 @@ class Interp:
 
     def getitem(self, obj, key, node=None):
         p = self.path
+        obj = self.deref(obj)
         if isinstance(obj, SV) and isinstance(obj.ty, TOpt):
             obj = p.project(obj.ty, obj.z)
         if obj is None:
@@ -1240,6 +1270,7 @@ class Interp:
 
     def setitem(self, obj, key, v, node=None):
         p = self.path
+        obj = self.deref(obj)
         if isinstance(obj, SV) and isinstance(obj.ty, TOpt):
             obj = p.project(obj.ty, obj.z)
         if obj is None:
@@ -1249,7 +1280,9 @@ class Interp:
             os_ = option_sort(ty.v.sort())
             self.heap_writes += 1
             self.model.on_heap_write(self, obj)
-            p.set_content(obj, z3.Store(p.content(obj), self.key_inject(ty.k, key), os_.some(p.inject(ty.v, v))))
+            vz = p.inject(ty.v, v)
+            p.note_escape(v)
+            p.set_content(obj, z3.Store(p.content(obj), self.key_inject(ty.k, key), os_.some(vz)))
             return
         r = self.model.setitem(self, obj, key, v, node)
         if r is not NotImplemented:
@@ -1258,6 +1291,7 @@ class Interp:
 
     def delitem(self, obj, key, node=None):
         p = self.path
+        obj = self.deref(obj)
         if isinstance(obj, SV) and isinstance(obj.ty, TOpt):
             obj = p.project(obj.ty, obj.z)
         if obj is None:
@@ -1285,6 +1319,7 @@ class Interp:
 
     def getattr(self, obj, name, node=None):
         p = self.path
+        obj = self.deref(obj)
         if isinstance(obj, ModuleNS):
             if name in obj.attrs:
                 v = obj.attrs[name]
@@ -1296,6 +1331,10 @@ class Interp:
             self.raise_("AttributeError", f"'NoneType' object has no attribute '{name}'", node=node)
         if isinstance(obj, SV) and isinstance(obj.ty, (TDict, TSet, TList)):
             return BoundMethod(obj, name, self.container_method(obj, name))
+        if isinstance(obj, ClassRef):
+            c = self.model.find_method_contract(obj.name, name)
+            if c is not None:
+                return Builtin(f"{obj.name}.{name}", lambda it, a, k, c=c: it.model.call_contract(it, c, a[0], a[1:], k))
         r = self.model.getattr(self, obj, name, node)
         if r is not NotImplemented:
             return r
@@ -1321,6 +1360,7 @@ class Interp:
             self.heap_writes += 1
             v = self.model.coerce_field(self, obj, name, fty, v)
             p.set_field(obj, name, v)
+            p.note_escape(v)
             return
         raise Unsupported(f"attribute store on {type(obj).__name__}")
 
@@ -1393,6 +1433,7 @@ class Interp:
         def list_append(it, o, args, kw):
             self.heap_writes += 1
             p.set_content(o, z3.Concat(p.content(o), z3.Unit(p.inject(ty.v, args[0]))))
+            p.note_escape(args[0])
 
         def list_remove(it, o, args, kw):
             seq = p.content(o)
